@@ -112,6 +112,12 @@ CHECKS['C03'] = dict(
          'the same failure, and sampled estimates must agree; every atom permutation of small molecules is tried through Mol objects and SMILES. Exploration; ortho-fused aromatics are a known finding.',
     note='Trusted: RDKit to produce equivalent spellings of one parsed molecule (re-read and compared by canonical SMILES).',
     ref='DESIGN.md C03')
+CHECKS['C04'] = dict(
+    technique='Hypothesis pairs/triples of generated molecules per scheme, additivity metamorphic relation over the dot-disconnected SMILES in both orders',
+    text='For every shipped scheme, ordered pairs and triples of generated molecules (incl. self-pairs, failing components, single atoms, bare metals, and pairs drawn from a pool rich in correction descriptors, '
+         'heterocycles and aromatics) are decomposed separately and as A.B / B.A; the mixture must give the descriptor-wise sum, fail exactly when a component fails, and sampled estimates must add. Exploration.',
+    note='Trusted: RDKit reading of dot-disconnected SMILES. Fused aromatics excluded (known finding of C02/C03).',
+    ref='DESIGN.md C04')
 NOT_YET = {}
 
 def main():
